@@ -54,6 +54,7 @@ class FsExecutor(object):
         self.stdin_data = stdin_data
         self.stdin_pos = 0
         self.out_expect = {1: b'', 2: b''}
+        self.std_closed = set()
         open(self.stdout_path, 'wb').close()
         open(self.stderr_path, 'wb').close()
         self.agent = Agent(self.base, self.stdin_path, self.stdout_path, self.stderr_path, pages=pages, cwd=self.base, variant=variant)
@@ -219,6 +220,10 @@ class FsExecutor(object):
         iovs, n, _ = put_iovs(self.agent, bufs)
         self.agent.fill(RES, 16)
         r = self.agent.call('fd_write', 0, fd, iovs, n, RES)
+        if fd in self.std_closed:
+            if r != E['BADF']:
+                self.fail('ebadf:fd_write', 'fd_write on closed standard descriptor %d returned %s instead of BADF' % (fd, ename(r)))
+            return
         if fd in (1, 2):
             if r != 0:
                 self.fail('stdio', 'fd_write to standard stream %d failed with %s' % (fd, ename(r)))
@@ -454,6 +459,17 @@ class FsExecutor(object):
         if d['mfd'] is not None:
             os.close(d['mfd'])
         d['closed'] = True
+
+    def close_std(self, which):
+        """the guest closes its standard output / error: afterwards the number is as dead as any other closed descriptor, also
+        once the host has handed the native number to a later open"""
+        self.record('close_std', which)
+        r = self.agent.call('fd_close', 0, which)
+        want = E['BADF'] if which in self.std_closed else 0
+        if r != want:
+            self.fail('close-std', 'fd_close(%d) returned %s, expected %s' % (which, ename(r), ename(want)))
+        self.std_closed.add(which)
+        self.flags.add('closed_standard_stream')
 
     # ---- C13: invalid descriptors
     BAD_CALLS = ('fd_write', 'fd_read', 'fd_pwrite', 'fd_pread', 'fd_seek', 'fd_tell', 'fd_close', 'fd_filestat_get',
